@@ -76,6 +76,15 @@ def cases(ctx):
         ctx.count('after-mutation')
         yield Case(f'tx_ids_after {line0} {G.muts_line(muts)}', 'ms', nontrivial=True, tag='after-mutation',
                    model=lambda ans, line1=line1: (f'm:tx_ids {line1}', ans), spec=lambda ans, line1=line1: (f's:tx_ids {line1}', ans))
+    for _ in range(ctx.n(40, 1500)):
+        tx = G.gen_tx(rng, names, max_in=3, max_out=3, big=False)
+        if len(tx.outputs) >= 2 and rng.random() < 0.5:
+            tx.outputs[1] = TxOutput(tx.outputs[1].amount, Script(list(tx.outputs[0].script_pubkey.script)))    # two identical scripts
+        try: raw = tx.to_bytes(tx.has_segwit)
+        except Exception: continue
+        ctx.count('parse-mutate-parse')
+        yield Case(f'tx_reser_after {hx(raw)}', 'ms', nontrivial=True, tag='parse-mutate-parse',
+                   model=lambda ans, raw=raw: (f'm:tx_reser {hx(raw)}', ans), spec=lambda ans, raw=raw: (f's:echo {hx(raw)}', ans))
     # no outputs at all / segwit flag with every stack empty
     yield from tx_cases(ctx, Transaction([TxInput('aa' * 32, 1)], []), 'no-outputs')
     yield from tx_cases(ctx, Transaction([TxInput('aa' * 32, 1)], [TxOutput(5, Script([]))], has_segwit=True,
@@ -117,6 +126,14 @@ def impl(op, a, ctx):
         tx = line_to_tx(F); muts = G.parse_muts(F); F.done()
         G.exercise(tx); G.apply_mutations(tx, muts)
         return f'ok {tx.get_txid()} {tx.get_wtxid()}'
+    if op == 'tx_reser_after':
+        h = F.bytes().hex()
+        t1 = Transaction.from_raw(h)
+        for i in t1.inputs: i.script_sig.script.append('OP_1')
+        for o in t1.outputs: o.script_pubkey.script.insert(0, 'OP_DROP')
+        for w in t1.witnesses: w.stack.append('aa')
+        t1.to_hex()
+        return 'ok ' + Transaction.from_raw(h).to_hex()
     if op == 'tx_parse':
         return 'ok ' + tx_to_line(Transaction.from_raw(F.bytes().hex()))
     if op == 'tx_reser':
